@@ -161,10 +161,12 @@ class ConfigChoice:
         return none_iff_no_valid(self.supvisors, identifiers, expected_load, load_details, result)
 
     def post_first_in_list_order(self, identifiers, expected_load, load_details, result):
-        return result is None or exists(int, lambda p: 0 <= p and p < len(identifiers) and identifiers[p] == result
-                                        and forall(int, lambda q: implies(
-                                            0 <= q and q < p,
-                                            not valid(self.supvisors, identifiers[q], expected_load, load_details))))
+        """every valid candidate of the list is preceded by (or is) an occurrence of the result; together with
+        post_eligible (the result is itself a valid candidate) this says that the result is the first valid candidate:
+        take the first valid position q0, some occurrence p <= q0 of the result is valid, hence p = q0"""
+        return result is None or forall(int, lambda q: implies(
+            0 <= q and q < len(identifiers) and valid(self.supvisors, identifiers[q], expected_load, load_details),
+            exists(int, lambda p: 0 <= p and p <= q and identifiers[p] == result)))
 
 
 @contract('strategy:LessLoadedStrategy.get_supvisors_instance', props=['C14', 'C04'])
